@@ -125,7 +125,11 @@ def side_tables(self, old, ghost, pend_gone, ids_gone):
         dict_same(self.pending_credit_based_connections, old.self.pending_credit_based_connections) if not pend_gone else True,
         pool_same_except(ghost.podicts, old.ghost.podicts, [self.pending_credit_based_connections] if pend_gone else []),
         pool_same_except(ghost.pdicts, old.ghost.pdicts, []),
-    ]
+    ] + ([
+        # the LE connection requests (of every link) are untouched while the channels / pending requests are walked
+        dict_same(self.le_coc_requests, old.self.le_coc_requests),
+        pool_same_except(ghost.rodicts, old.ghost.rodicts, []),
+    ] if PER_CONN_REQUESTS else [])
 
 
 def monotone(old, ghost):
@@ -173,6 +177,13 @@ def link_lost_post(self, connection_handle, old, ghost):
         h not in self.identifiers and dict_same_except(self.identifiers, old.self.identifiers, [h]),
         # no LE connection request of the lost link stays pending (its identifiers will be used again by the next link)
         forall(0, 256, lambda k: pending_request(self, ghost, h, k) is None),
+    ] + ([
+        # ... and the requests of every other link are where they were (signalling on one link never alters another):
+        # only the slot of h left the outer table; no inner table of requests was written (ghost.rdicts is not in
+        # `modifies`: frame obligation)
+        h not in self.le_coc_requests and dict_same_except(self.le_coc_requests, old.self.le_coc_requests, [h]),
+        pool_same_except(ghost.rodicts, old.ghost.rodicts, [self.le_coc_requests]),
+    ] if PER_CONN_REQUESTS else []) + [
         pool_same_except(ghost.cdicts, old.ghost.cdicts, [inner(le0, h)]),
         pool_same_except(ghost.odicts, old.ghost.odicts, [self.channels, self.le_coc_channels]),
     ] + all_aborted(self, h, old, ghost) + [
@@ -181,7 +192,7 @@ def link_lost_post(self, connection_handle, old, ghost):
     ] + others(self, h, old, ghost) + wf(self, None) + [chan_inv(self)]
 
 
-LINK_NAMES = ['gone-from-channels', 'gone-from-le-coc-channels', 'gone-from-pending-requests', 'gone-from-identifiers', 'no-le-request-left-pending', 'other-inner-tables-untouched', 'other-outer-tables-untouched',
+LINK_NAMES = ['gone-from-channels', 'gone-from-le-coc-channels', 'gone-from-pending-requests', 'gone-from-identifiers', 'no-le-request-left-pending'] + (['le-requests-of-other-links-kept', 'other-request-tables-untouched'] if PER_CONN_REQUESTS else []) + ['other-inner-tables-untouched', 'other-outer-tables-untouched',
               'every-channel-of-the-link-aborted', 'pending-requests-released', 'other-channels-untouched', 'other-futures-untouched'] + WF_NAMES + ['futures-invariant']
 
 contract(
